@@ -526,7 +526,7 @@ func (r *c04Run) checkPrefix(L []Rec, opOf []int, p int, o prefixOpts) string {
 		n, err := nodeClosure(d)
 		r.nnodes += n
 		if err != nil {
-			bad("trie-node-closure-broken/"+tag, "a trie node is on disk before one of its children (commit must write children before parents): "+err.Error(), nil)
+			bad("trie-node-closure-broken/"+tag, "a trie node is on disk while one of its children (trie node, storage root or code blob) is not - commit must write children before parents and must reach every referenced blob: "+err.Error(), nil)
 		}
 	}
 	// expected head
@@ -1065,7 +1065,7 @@ func MainC04() {
 		c04Model = c.StartModel()
 		defer c04Model.Close()
 	}
-	c.Res.Rule = "a case is one crash point: a prefix of the write log (direct puts/deletes and atomic batch flushes, Stop included) of a crash-free run of a history of InsertChain calls over a block tree built with core.GenerateChain (a scripted tree forcing a reorganisation to a longer and to a shorter-but-heavier branch; random trees with branch lengths 1-8, longer-lighter / shorter-heavier / tied branches, shared transactions, invalid and orphan-first deliveries; a block whose contract creation writes 4000 storage slots so that ONE trie commit - in WriteBlockWithState on an archive node, in Stop() on a pruning node - is split over several batch flushes, with every prefix inside that commit; thorough: a 150-block chain with a fork so that a pruning node flushes), under archive and pruning cache configurations; the prefix is materialised as a fresh disk, core.NewBlockChain reopens it (panic, error, 10 s watchdog) and the statements are evaluated directly: head = last value written to LastBlock in the prefix (pruning: nearest ancestor with a complete state), complete state iteration at the head root, number index = ancestry below the head, header/body/td of every ancestor, closure of every state root present on disk and of every stored trie node (all its children stored), and re-feeding the history converges to the total difficulty repeated feeding reaches on the complete disk.  A second kind of case makes the n-th write fail in a child process (log.Crit exits): every write index of one short archive import and of one pruning import + Stop() in the quick tier; 25 s deadlock watchdog, then the same oracle on the writes before the failed one, on the final database of a process that lived on, and on every crash prefix of what that process wrote after the failure (a block InsertChain reported as imported must be the head after a restart).  Non-trivial = the prefix ends right after a write to the head pointer or the number index, or a failing write; distinct by (scenario, configuration, index)"
+	c.Res.Rule = "a case is one crash point: a prefix of the write log (direct puts/deletes and atomic batch flushes, Stop included) of a crash-free run of a history of InsertChain calls over a block tree built with core.GenerateChain (a scripted tree forcing a reorganisation to a longer and to a shorter-but-heavier branch; random trees with branch lengths 1-8, longer-lighter / shorter-heavier / tied branches, shared transactions, invalid and orphan-first deliveries; contracts with code and no storage / with storage and their own code / sharing one code hash / with storage cleared again (archive import, pruning Stop(), clean shutdown); a block whose contract creation writes 4000 storage slots so that ONE trie commit - in WriteBlockWithState on an archive node, in Stop() on a pruning node - is split over several batch flushes, with every prefix inside that commit; thorough: a 150-block chain with a fork so that a pruning node flushes), under archive and pruning cache configurations; the prefix is materialised as a fresh disk, core.NewBlockChain reopens it (panic, error, 10 s watchdog) and the statements are evaluated directly: head = last value written to LastBlock in the prefix (pruning: nearest ancestor with a complete state), complete state iteration at the head root on fresh caches (every account: balance, nonce, whole storage trie, code blob by code hash, hash checked), number index = ancestry below the head, header/body/td of every ancestor, closure of every state root present on disk and of every stored trie node (all its children stored), and re-feeding the history converges to the total difficulty repeated feeding reaches on the complete disk.  A second kind of case makes the n-th write fail in a child process (log.Crit exits): every write index of one short archive import and of one pruning import + Stop() in the quick tier; 25 s deadlock watchdog, then the same oracle on the writes before the failed one, on the final database of a process that lived on, and on every crash prefix of what that process wrote after the failure (a block InsertChain reported as imported must be the head after a restart).  Non-trivial = the prefix ends right after a write to the head pointer or the number index, or a failing write; distinct by (scenario, configuration, index)"
 	c.Assume("LevelDB batches are atomic and writes are ordered; in-memory database stands in for LevelDB")
 	c.Assume("header verification by the full-fake engine; tie-break coin controlled through math/rand.Seed (GODEBUG randseednop=0); blocks come from core.GenerateChain")
 	c.Assume("convergence reference: the total difficulty that feeding the history repeatedly converges to (a history delivering a child before its parent accepts more on the second feed than the crash-free run did); ties may resolve to either block")
